@@ -156,11 +156,12 @@ class Ref(object):
         iv = lambda kind, arg: ["v", kind, arg]
         if name == "dd":
             k, kind = s[2], s[3]
+            tag = "dd-twin" if len(s) > 4 and s[4] else "dd"
             if k % 4 == 3:
-                return ["exc", ["dd", k]]
+                return ["exc", [tag, k]]
             if k % 4 == 2:
                 raise NotImplementedError("the outcome of a deduplicated body re-entering itself from a failure handler is not specified")
-            return ["ok", ["dd", k, iv(kind, k), ["dd-inner", k] if k % 4 == 1 else None]]
+            return ["ok", [tag, k, iv(kind, k), [tag + "-inner", k] if k % 4 == 1 else None]]
         if name == "alru":
             return ["ok", ["alru", s[2], iv(s[3], s[2])]]
         if name == "agen":
@@ -180,6 +181,10 @@ class Ref(object):
         if name == "retry":
             return ["ok", ["retry", s[2], 2, iv(s[3], s[2])]]
         if name == "cwc":
+            if s[2] % 4 == 2:
+                return ["exc", ["cwc", s[2]]]        # the function fails inside the context: the failure is the call's failure
+            if s[2] % 4 == 3:
+                return ["ok", None]                    # ... unless the context suppresses it, as a with-block would
             return ["ok", ["plain", s[2], iv(s[3], s[2])]]
         raise AssertionError(name)
 
